@@ -102,3 +102,14 @@ Proof.
   - eapply bsE_expr. evc. rewrite Hob2. evc. rewrite E3. evc. reflexivity.
 Qed.
 End Partial.
+
+(* as a top-level call *)
+Theorem obj_destroy_partial_source k sx m h ob db ty filled nulls data : obj_block h ob ty (zlen (filled ++ nulls)) data -> as_ptr data = VCell db 0 -> ob <> db ->
+  Leaf.gen_sbdf_ti_is_arr ty <> 0 -> nth_error h db = Some (Some (filled ++ nulls)) -> elem_ptrs m filled -> Forall (fun c => c = VInt 0 \/ c = VNull) nulls ->
+  zlen (filled ++ nulls) <= int_max ->
+  exists f0, forall f, (f0 <= f)%nat -> exists fin,
+    callC prog_env f prog_sbdf_obj_destroy [VCell ob 0] m k sx h = ONormal fin /\ inb fin = m /\ lookup cells_var (vars fin) = Some (VHeap (kill ob (kill db h))).
+Proof.
+  intros H1 H2 H3 H4 H5 H6 H7 H8. destruct (obj_destroy_partial_bs (VInt 0) k sx m [] h ob db ty filled nulls data VUndef VUndef H1 H2 H3 H4 H5 H6 H7 H8) as (iv & pv & B).
+  destruct (bsE_sound _ _ _ _ B) as (f0 & F). exists f0. intros f Hf. eexists. split; [apply F; exact Hf|]. split; reflexivity.
+Qed.
